@@ -26,7 +26,11 @@ RULE = ("three case kinds. 'rw': a 3-D array of independent x,y,z sizes (quick: 
         "invert on/off, overwrite on/off, default/explicit/ill-named output, output pre-existing or not, stems ending in the letters "
         "of the cut extension (volume.em, ctf_corr.mrc), a fifth of the MRC inputs big-endian (machine stamp 11 11). 'seq' (G2): two or three calls in one process sharing the same ndarray "
         "object (second file / other options), the same path (rewritten with another shape/dtype, then read), or the same converter "
-        "input and output (convert, then invert over it / be refused), each step judged like a single case. non-trivial = pairwise "
+        "input and output (convert, then invert over it / be refused), each step judged like a single case; in both tiers also on LARGE files "
+        "(>=40^3 float voxels, >=256 KiB): the same path rewritten with another large volume and read again, the same converter input path holding "
+        "a NEW volume for the second conversion, convert-then-invert over the output; one large map is re-read after the caller edited the "
+        "result, and each large map carries one non-default option (untransposed / data_type / reader data_type / Fortran layout / reader alias). "
+        "The real code is called under the numpy error state its own import left (never under the harness's errstate). non-trivial = pairwise "
         "distinct x,y,z sizes and >=24 voxels and not a rejected name; distinct = distinct case content")
 ASSUMPTIONS = [
     "mrcfile.write / emfile.write store the C-ordered array they are given with nx=shape[2], ny=shape[1], nz=shape[0] (Model.store); "
@@ -75,6 +79,57 @@ DOC = dict(
              em2mrc=["_p0", "invert=False", "overwrite=True", "output_name=None"],
              mrc2em=["_p0", "invert=False", "overwrite=True", "output_name=None"]),
 )
+# the documented normalised bodies (the same literals as the `*_body_documented` theorems of Props/C11.lean), kept here only to
+# print a readable diff when the source moves away from them
+DOC_BODY = {'em2mrc': ["if not isinstance(_p0, str):\n    raise ValueError\nelif not _p0.endswith('.em'):\n    raise ValueError",
+            '_v0 = read(_p0)',
+            'if invert:\n    _v0 = -_v0',
+            "if output_name is None:\n    output_name = _p0[:-2] + 'mrc'\nelif not output_name.endswith('.mrc'):\n    raise ValueError",
+            'write(_v0, output_name, overwrite=overwrite)'],
+ 'invert_contrast': ['_p0 = read(_p0)',
+                     '_v0 = -_p0',
+                     'if output_name is not None:\n'
+                     '    if _v0.dtype == np.float64:\n'
+                     '        _v1 = np.single\n'
+                     '    else:\n'
+                     '        _v1 = _v0.dtype\n'
+                     '    write(_v0, output_name, data_type=_v1)',
+                     'return _v0'],
+ 'mrc2em': ["if not isinstance(_p0, str):\n    raise ValueError\nelif not _p0.endswith('.mrc'):\n    raise ValueError",
+            '_v0 = read(_p0)',
+            'if invert:\n    _v0 = -_v0',
+            "if output_name is None:\n    output_name = _p0[:-3] + 'em'\nelif not output_name.endswith('.em'):\n    raise ValueError",
+            'write(_v0, output_name, overwrite=overwrite)'],
+ 'read': ['if isinstance(_p0, str):\n'
+          '\n'
+          '    def _v0(_v1):\n'
+          "        _v2 = '\\\\.(mrc|ali|rec|st)(\\\\.\\\\d+)?$'\n"
+          '        return bool(re.search(_v2, _v1))\n'
+          '    if _v0(_p0):\n'
+          '        _v3 = mrcfile.open(_p0).data\n'
+          "    elif _p0.endswith('.em'):\n"
+          '        _v3 = emfile.read(_p0)[1]\n'
+          '    else:\n'
+          '        raise ValueError\n'
+          '    if transpose:\n'
+          '        _v3 = _v3.transpose(2, 1, 0)\n'
+          'elif isinstance(_p0, np.ndarray):\n'
+          '    _v3 = np.array(_p0)\n'
+          'else:\n'
+          '    raise ValueError',
+          '_v3 = np.array(_v3, copy=True)',
+          'if data_type is not None:\n    _v3 = _v3.astype(data_type)',
+          'return _v3'],
+ 'write': ['if data_type is not None:\n    _p0 = _p0.astype(data_type)',
+           "if _p0.dtype.byteorder == '>':\n    _p0 = _p0.astype(_p0.dtype.newbyteorder('<'))",
+           'if transpose and _p0.ndim == 3:\n    _p0 = _p0.transpose(2, 1, 0)',
+           'if _p0.dtype == np.float64:\n    _p0 = _p0.astype(np.float32)',
+           "if _p1.endswith('.mrc') or _p1.endswith('.rec'):\n"
+           '    mrcfile.write(name=_p1, data=_p0, overwrite=overwrite)\n'
+           "elif _p1.endswith('.em'):\n"
+           '    emfile.write(_p1, data=_p0, overwrite=overwrite)\n'
+           'else:\n'
+           '    raise ValueError']}
 AXIS_OPS = ("transpose", "swapaxes", "moveaxis", "rollaxis", "T", "mT", "einsum", "permute_dims", "flip", "rot90")
 
 
@@ -122,6 +177,16 @@ def _strip_fn(fn):
             if isinstance(n.exc, ast.Call):
                 n.exc = n.exc.func
             n.cause = None
+            return n
+
+        def visit_BinOp(self, n):
+            # `x * (-1)` / `(-1) * x` and `-x` are the same operation on float32/float64/int16/int8 arrays: one normal form
+            self.generic_visit(n)
+            def minus_one(e):
+                return (isinstance(e, ast.UnaryOp) and isinstance(e.op, ast.USub) and isinstance(e.operand, ast.Constant) and e.operand.value == 1
+                        and type(e.operand.value) is int) or (isinstance(e, ast.Constant) and type(e.value) is int and e.value == -1)
+            if isinstance(n.op, ast.Mult) and (minus_one(n.right) or minus_one(n.left)):
+                return ast.copy_location(ast.UnaryOp(op=ast.USub(), operand=n.left if minus_one(n.right) else n.right), n)
             return n
 
         def visit_Call(self, n):
@@ -492,6 +557,8 @@ def _conv_anchors(src, name):
                 for n in ast.walk(ast.Module(body=st.body, type_ignores=[])):
                     if isinstance(n, ast.BinOp) and isinstance(n.op, ast.Mult):
                         d["factor"] = int(ast.literal_eval(ast.unparse(n.right)))
+                    elif isinstance(n, ast.UnaryOp) and isinstance(n.op, ast.USub) and d["factor"] is None:
+                        d["factor"] = -1      # `-data` (also the normal form of `data * (-1)`)
         if isinstance(st, ast.Assign) and ast.unparse(st.targets[0]) == "output_name" and isinstance(st.value, ast.BinOp) and isinstance(st.value.op, ast.Add):
             l, r = st.value.left, st.value.right
             if isinstance(l, ast.Subscript) and ast.unparse(l.value) == "_p0" and isinstance(l.slice, ast.Slice) and l.slice.lower is None and l.slice.step is None:
@@ -540,7 +607,20 @@ def translate(src):
     for f in ("write", "read", "em2mrc", "mrc2em"):
         sig[f] = src.anchor(f"{f}:signature(keywords and defaults)", lambda f=f: _signature(src.find(REL, f))) or DOC["sig"][f]
     for f in ("write", "read", "em2mrc", "mrc2em", "invert_contrast"):
-        body[f] = src.anchor(f"{f}:normalised-body", lambda f=f: _body_dump(src.find(REL, f))) or []
+        try:
+            body[f] = _body_dump(src.find(REL, f))
+        except Exception:
+            body[f] = []
+
+        def same_as_documented(f=f):
+            # the Lean theorem `<f>_body_documented` decides; this anchor only SHOWS what moved, in the source's own identifiers
+            if body[f] != DOC_BODY[f]:
+                import difflib
+                d = "\n".join(difflib.unified_diff("\n".join(DOC_BODY[f]).splitlines(), "\n".join(body[f]).splitlines(),
+                                                   "documented", "current source", lineterm="", n=1))
+                raise core.AnchorMissing(f"{f}: normalised body differs from the documented one:\n" + _denorm(d, f))
+            return body[f]
+        src.anchor(f"{f}:normalised-body", same_as_documented)
     w_ax = w_ax or DOC["axes"]
     r_ax = r_ax or DOC["raxes"]
     w = w or DOC["write"]
@@ -922,6 +1002,54 @@ def _big_conv_case(rng, which, shape, invert=None):
     return case
 
 
+BIG_SEQ_SHAPES = [(40, 41, 42), (42, 40, 44), (41, 43, 40), (44, 41, 40), (40, 42, 45)]
+
+
+def _big_seq_cases(rng):
+    """cross-call state on LARGE files (>= 40^3 float32 voxels = >= 256 KiB on disk: caches, memory maps and buffers that
+    switch on by file size): the same path rewritten with another volume and read again; the same converter input
+    path holding a NEW volume for the second conversion; convert, then invert over the output"""
+    sa, sb = rng.sample(BIG_SEQ_SHAPES, 2)
+    ext = rng.choice(GOOD_EXT)
+    s1 = _rw_case(rng, sa, rng.choice(["float32", "float64"]), ext, simple=True)
+    s2 = _rw_case(rng, sb, rng.choice(["float32", "float64"]), ext, simple=True)
+    s2.update(name=s1["name"], reread=True)
+    for st in (s1, s2):
+        st["omit"] = _omit(rng, st, DEFAULTS_RW)
+    yield dict(kind="seq", mode="same-path", steps=[s1, s2], shape=s1["shape"], dtype=s1["dtype"], fill=s1["fill"])
+    for mode in ("conv-new-input", "conv-twice"):
+        which = rng.choice(["em2mrc", "mrc2em"])
+        c1 = _big_conv_case(rng, which, rng.choice(BIG_SEQ_SHAPES), False)
+        c1["dtype"] = "float32"
+        c1["fill"] = _fill(rng, "float32", [], invert=True)
+        c2 = dict(c1, exists=True, overwrite=True)
+        if mode == "conv-new-input":       # other software rewrote the input file in between: the output must follow
+            c2["fill"] = dict(mode="random", seed=rng.randrange(1 << 30), scale=rng.choice([1.0, 100.0]))
+            c2["invert"] = rng.random() < 0.5
+        else:
+            c2["invert"] = True
+        c2["omit"] = _omit(rng, c2, DEFAULTS_CONV)
+        yield dict(kind="seq", mode=mode, steps=[c1, c2], shape=c1["shape"], dtype=c1["dtype"], fill=c1["fill"])
+
+
+def _large_option(rng, case, i):
+    """one non-default option on a large map (the rest stays at the defaults)"""
+    opt = ["none", "untransposed", "data_type", "rdata_type", "layout", "alias"][i % 6]
+    dt = case["dtype"]
+    if opt == "untransposed":
+        case["transpose"] = case["rtranspose"] = False
+    elif opt == "data_type":
+        case["data_type"] = {"float64": "float32", "float32": "float64", "int16": "float32", "int8": "int16"}[dt]
+    elif opt == "rdata_type":
+        case["rdata_type"] = {"float64": "float32", "float32": "float64", "int16": "float32", "int8": "int16"}[dt]
+    elif opt == "layout":
+        case["layout"] = rng.choice(["F", "tview"])
+    elif opt == "alias" and not case["name"].endswith(".em"):
+        case["rname"] = rng.choice(["numeric", "st", "ali"])
+    case["omit"] = _omit(rng, case, DEFAULTS_RW)
+    return case
+
+
 def _seq_case(rng, cap):
     """G2: two or three library calls in ONE process that share a caller-owned array object or a file path"""
     mode = rng.choice(["same-array", "same-path", "conv-twice", "conv-refuse-after-conv"])
@@ -979,11 +1107,14 @@ def generate(rng, tier, n):
     if tier in ("quick", "thorough"):
         # large non-cubic maps (tiled / blocked code paths switch on above some voxel count)
         large = LARGE_SHAPES if tier == "thorough" else LARGE_SHAPES[:2] + rng.sample(LARGE_SHAPES[2:], 3)
+        o = rng.randrange(6)
         for i, s in enumerate(large):
             d, e = combos[(c + 5 * i) % len(combos)]
-            case = _rw_case(rng, s, d, e, simple=True)
-            case["omit"] = _omit(rng, case, DEFAULTS_RW)
+            case = _large_option(rng, _rw_case(rng, s, d, e, simple=True), o + i)
+            if i == 0:
+                case["reread"] = True           # the caller edits what read() returned, then reads the large file again
             yield case
+        yield from _big_seq_cases(rng)
         # converter inputs of the size the quantifier names (sizes up to 48 per axis): quick runs BOTH converters once on
         # a map of >= 40^3 voxels (pairwise distinct sizes, so that any permutation of the axes shows), thorough runs
         # both converters x invert on/off on (48,47,46)-class maps plus every LARGE_SHAPE
@@ -1028,6 +1159,7 @@ def search_cases(rng, broken, anchors):
     for which in ("em2mrc", "mrc2em"):
         for s in (CONV_TOP_SHAPES[0], LARGE_SHAPES[0]):
             yield _big_conv_case(rng, which, s, False)
+    yield from _big_seq_cases(rng)
     for which in ("em2mrc", "mrc2em"):
         for inv in (False, True):
             for ow in (False, True):
@@ -1154,10 +1286,21 @@ def _same_array(a, pristine):
     return a.shape == pristine.shape and a.dtype == pristine.dtype and _bits(np.ascontiguousarray(a).reshape(-1)) == _bits(pristine.reshape(-1))
 
 
+_IMPL_ERR = None     # numpy's error state as importing cryocat left it: the state every call of the real code runs under
+
+
+def _call(f, *args, **kw):
+    """call the real code under the numpy error state its own import left (a module-level `np.seterr(over="raise")`
+    is part of the code under test); the harness's own numpy work runs under errstate(all="ignore") around it"""
+    with np.errstate(**(_IMPL_ERR or {})):
+        return f(*args, **kw)
+
+
 def run_impl(case):
-    import warnings
-    warnings.filterwarnings("ignore")
-    from cryocat import cryomap
+    global _IMPL_ERR
+    from cryocat import cryomap            # neither the error state nor the warning filters are touched before / around this
+    if _IMPL_ERR is None:
+        _IMPL_ERR = dict(np.geterr())
     td = tempfile.mkdtemp(prefix="c11_")
     try:
         with np.errstate(all="ignore"):
@@ -1189,7 +1332,7 @@ def _input_array(cryomap, case, td, out):
         # the array read() returned is handed to write() as it is
         own = os.path.join(td, "own_be_src.mrc")
         write_mrc_own(own, a, big=True)
-        b = cryomap.read(own)
+        b = _call(cryomap.read, own)
         out["src_read"] = _arr_obs(b)
         out["src_byteorder"] = getattr(getattr(b, "dtype", None), "byteorder", "?")
         os.remove(own)
@@ -1201,7 +1344,7 @@ def _input_array(cryomap, case, td, out):
     # read() -> arithmetic -> write(): the array comes out of cryomap.read of a file made by the harness's own writer
     own = os.path.join(td, "own_src." + ("em" if a.dtype == np.float64 or sum(case["shape"]) % 2 else "mrc"))
     (write_em_own if own.endswith(".em") else write_mrc_own)(own, a)
-    b = cryomap.read(own)
+    b = _call(cryomap.read, own)
     out["src_read"] = _arr_obs(b)
     out["src_read"]["f_contiguous"] = bool(getattr(b, "flags", None) is not None and b.flags.f_contiguous)
     c = b * 1                       # processing that changes no value (keeps -0.0, NaN, inf) and keeps the layout
@@ -1237,7 +1380,7 @@ def _run_rw(cryomap, case, td, shared=None):
         rkw["data_type"] = NP[case["rdata_type"]] if case["rdata_type"] else None
     out["files_before"] = sorted(os.listdir(td))
     try:
-        ret = cryomap.write(a, p, **kw)
+        ret = _call(cryomap.write, a, p, **kw)
         out["write_returns"] = type(ret).__name__
     except Exception as e:
         if not _in_cryocat(e):
@@ -1255,7 +1398,7 @@ def _run_rw(cryomap, case, td, shared=None):
     if rp != p:
         shutil.copyfile(p, rp)
     try:
-        b = cryomap.read(rp, **rkw)
+        b = _call(cryomap.read, rp, **rkw)
         out["back"] = _arr_obs(b)
         if case.get("reread"):
             # G2: the caller edits the array it got, then reads the same path again (a cache handing out the same
@@ -1263,7 +1406,7 @@ def _run_rw(cryomap, case, td, shared=None):
             if isinstance(b, np.ndarray) and b.size and b.flags.writeable:
                 b[...] = 99
             out["file_unchanged_by_read"] = (parse_by_content(p).get("data") == out["write"].get("data"))
-            out["back2"] = _arr_obs(cryomap.read(rp, **rkw))
+            out["back2"] = _arr_obs(_call(cryomap.read, rp, **rkw))
     except Exception as e:
         if not _in_cryocat(e):
             raise
@@ -1322,7 +1465,7 @@ def _run_conv(cryomap, case, td):
     if "output" not in omit:
         kw["output_name"] = None if case["output"] is None else pout
     try:
-        ret = fn(pin, **kw)
+        ret = _call(fn, pin, **kw)
         res["result"] = "ok"
         res["returns"] = type(ret).__name__
     except Exception as e:
@@ -1507,7 +1650,7 @@ def _judge_rw(case, obs, model):
     model_err = model.get("error") if isinstance(model, dict) else "no-response"
     # ---- the caller's array is the caller's (G2)
     if obs.get("input_unchanged") is False:
-        S("input-array-modified", f"{call} / read changed the array object passed in")
+        C("input-array-modified", f"{call} / read changed the array object passed in")
     sr = obs.get("src_read")
     if sr is not None:
         a = build(case)
@@ -1517,9 +1660,9 @@ def _judge_rw(case, obs, model):
     # ---- names
     if not w_ok:
         if "reject" not in w:
-            S("accepts-unsupported-extension", f"write({case['name']!r}) produced {obs.get('files')}")
+            C("accepts-unsupported-extension", f"write({case['name']!r}) produced {obs.get('files')}")
         elif w["reject"].get("type") == "none":
-            S("silently-ignores-unsupported-extension", f"write({case['name']!r}) returned normally and wrote nothing")
+            C("silently-ignores-unsupported-extension", f"write({case['name']!r}) returned normally and wrote nothing")
         elif w["reject"].get("type") != "ValueError":
             # documented: `Raises ValueError` for a name without one of the allowed extensions; the wording is free (H1)
             C("refusal-type", f"write({case['name']!r}): documented ValueError, got {_rtxt(w['reject'])}")
@@ -1568,7 +1711,7 @@ def _judge_rw(case, obs, model):
     rcall = f"read({_read_name(case)!r}" + "".join(f", {k[1:]}={case[k]}" for k in ("rtranspose", "rdata_type") if k not in case.get("omit", [])) + ")"
     if not r_ok:
         if "reject" not in b:
-            S("reads-unsupported-extension", f"{rcall} returned an array")
+            C("reads-unsupported-extension", f"{rcall} returned an array")
         elif b["reject"].get("type") != "ValueError":
             C("refusal-type", f"{rcall}: documented ValueError, got {_rtxt(b['reject'])}")
         if not model_err and ma.get("error") != "reject:bad-extension":
@@ -1589,14 +1732,14 @@ def _judge_rw(case, obs, model):
         if bb is None:
             continue
         if not bb.get("ndarray"):
-            S("roundtrip-dtype", f"{tag}{rcall} returned a {bb.get('pytype')}, not a numpy array")
+            S("roundtrip-shape", f"{tag}{rcall} returned a {bb.get('pytype')}, not a numpy array")
             continue
         if bb["shape"] != exp["back_shape"]:
             S("roundtrip-shape", f"{tag}{rcall} after {call}: shape {bb['shape']}, the statement demands {exp['back_shape']}")
         elif bb["data"] != exp["back_data"]:
             S("roundtrip-voxels", f"{tag}{rcall} after {call}: voxels differ: " + _first_diff(bb["data"], exp["back_data"]))
         if bb["dtype"] != exp["back_dtype"]:
-            S("roundtrip-dtype", f"{tag}{rcall} after {call}: dtype {bb['dtype']}, documented {exp['back_dtype']}")
+            C("roundtrip-dtype", f"{tag}{rcall} after {call}: dtype {bb['dtype']}, documented {exp['back_dtype']}")
     if obs.get("file_unchanged_by_read") is False:
         S("read-modifies-file", f"{rcall}: the file changed after the caller edited the returned array")
     if "check_back" in model and not (model["check_back"] and model["check_back_dtype"]):
@@ -1639,7 +1782,9 @@ def _judge_conv(case, obs, model):
         S("input-file-modified", f"{case['in_name']} changed on disk")
     if verdict != "ok":
         if obs["result"] == "ok":
-            S("no-refusal" if verdict != "exists" else "overwrites-when-told-not-to",
+            # the statement's only refusal clause is "refuse to overwrite when told not to"; refusing ill-named inputs /
+            # outputs is documented behaviour the statement is silent about (corr)
+            (S if verdict == "exists" else C)("no-refusal" if verdict != "exists" else "overwrites-when-told-not-to",
               f"{call} with {obs.get('out_name')} present returned normally; documented refusal: {verdict}")
         elif verdict in ("bad-input-name", "bad-output-name") and obs.get("refusal", {}).get("type") != "ValueError":
             # WHICH precondition is violated comes from the call itself (`verdict`), the refusal is recognised by its
@@ -1664,7 +1809,7 @@ def _judge_conv(case, obs, model):
         return out
     extra = new_files - {case["in_name"], oname}
     if extra:
-        S("stray-files", f"{call}: {sorted(extra)}")
+        C("stray-files", f"{call}: {sorted(extra)}")
     if o.get("bad"):
         S("file-header", f"unparseable output: {o['bad']}")
         return out
